@@ -15,7 +15,8 @@ RULE = ("cases = operation histories on an EmcyConsumer (8-byte EMCY frames with
         "add_callback, consumer reset, and a malformed stream of frames of 0..7 / 9..12 bytes), driven either by "
         "on_emcy directly or through Network.notify into a RemoteNode, the state (log, active, callback log) observed "
         "after every operation; producer frames (send / reset) for codes and registers at and beyond the field ends and "
-        "data of 0..8 bytes; producer -> network -> consumer round trips; get_desc on single codes (through the model) and "
+        "data of 0..8 bytes; producer -> network -> consumer round trips, single messages and sequences of 2..6 messages from one "
+        "producer object with mostly decreasing data lengths; get_desc on single codes (through the model) and "
         "as run-length sweeps over all 65536 codes (oracle only); EmcyConsumer.wait with and without a code filter while a "
         "second thread feeds frames (1..3 frames per wake-up, sometimes frames between two iterations of the loop, sometimes the "
         "deadline of the call passing - on a scripted clock - while frames keep arriving). Codes are biased to the class boundaries 0x0000 0x00FF 0x0100 0x1000 0x10FF 0x1100 ... "
@@ -197,6 +198,36 @@ def run_round(c):
     return guarded(f)
 
 
+def run_prod_seq(c):
+    """one LocalNode producer, several messages, into one RemoteNode consumer (message i at timestamp ts + i)"""
+    import canopen
+    net = _net()
+    od = canopen.ObjectDictionary()
+    remote = canopen.RemoteNode(NODE, od)
+    remote.associate_network(net)
+    local = canopen.LocalNode(NODE, od)
+    local.associate_network(net)
+    cblog = []
+    remote.emcy.add_callback(lambda e: cblog.append([0, canon_entry(e)]))
+    out = []
+    for i, m in enumerate(c["msgs"]):
+        net.ts = c["ts"] + i
+        n0 = len(net.sent)
+
+        def f():
+            if m[0] == "send":
+                local.emcy.send(m[1], m[2], bytes(m[3]))
+            else:
+                local.emcy.reset(m[1], bytes(m[2]))
+            new = net.sent[n0:]
+            if len(new) == 1 and new[0][0] == 0x80 + NODE:
+                return new[0][1]
+            return [[cid, fr] for cid, fr in new]
+        out.append(guarded(f))
+    out.append(_snapshot(remote.emcy, cblog))
+    return out
+
+
 def run_desc(c):
     from canopen.emcy import EmcyError
     return guarded(lambda: S(EmcyError(c["code"], 0, b"", 0).get_desc()))
@@ -242,6 +273,7 @@ class _GapCondition:
         self.waiter = None
         self.pending = None
         self.helpers = []
+        self.clock = None
 
     def __enter__(self):
         return self.c.__enter__()
@@ -259,7 +291,11 @@ class _GapCondition:
             t = threading.Thread(target=f, daemon=True)
             self.helpers.append(t)
             t.start()
-        return self.c.wait(timeout)
+        r = self.c.wait(timeout)
+        if not r and self.clock is not None and timeout is not None:
+            # Condition.wait really ran into its time-out: that much time has passed on the caller's clock
+            self.clock.now += timeout + 0.001
+        return r
 
     def notify_all(self):
         self.c.notify_all()
@@ -297,13 +333,13 @@ def run_wait_once(c):
     cons = emcy_mod.EmcyConsumer()
     gaps = case_gaps(c)
     late_at = c.get("late_at")
-    gc = None
-    if any(gaps):
-        gc = cons.emcy_received = _GapCondition()
+    # the instrumented condition is used for every wait case: it passes everything on to a real Condition, moves the
+    # scripted clock when Condition.wait really times out, and realises the hand-over schedules (gaps)
+    gc = cons.emcy_received = _GapCondition()
     for f, ts in c["pre"]:
         cons.on_emcy(0x80 + NODE, bytes(f), ts)
     box = {}
-    clock = _Clock()
+    clock = gc.clock = _Clock()
     had_time = hasattr(emcy_mod, "time")
     real_time = getattr(emcy_mod, "time", None)
     emcy_mod.time = clock
@@ -312,8 +348,7 @@ def run_wait_once(c):
         box["r"] = guarded(lambda: cons.wait(c["filt"], WAIT_TIMEOUT))
 
     th = threading.Thread(target=waiter, daemon=True)
-    if gc is not None:
-        gc.waiter = th
+    gc.waiter = th
     slow = False
 
     def log_frames(frames):
@@ -345,9 +380,8 @@ def run_wait_once(c):
         th.join(10)
         if th.is_alive():
             return Err(9, "wait did not return"), False
-        if gc is not None:
-            for t in gc.helpers:
-                t.join(2)
+        for t in gc.helpers:
+            t.join(2)
     finally:
         if had_time:
             emcy_mod.time = real_time
@@ -373,6 +407,7 @@ def impl(c):
     if k == "hist": return guarded(run_hist, c)
     if k in ("prod", "prod_reset"): return run_prod(c)
     if k == "round": return run_round(c)
+    if k == "prod_seq": return guarded(run_prod_seq, c)
     if k == "desc": return run_desc(c)
     if k == "desc_sweep": return run_desc_sweep(c)
     if k == "wait": return guarded(run_wait, c)
@@ -449,6 +484,25 @@ def oracle(c, o):
                 return ("roundtrip_wrong", f"send(0x{code:04X}, {reg}, {bytes(data).hex()}) at ts={ts}: consumer state "
                         f"{o!r}, expected {want_state!r}")
         return None
+    if k == "prod_seq":
+        log, active = [], []
+        if isinstance(o, Err):
+            return ("producer_frame_wrong", f"sequence raised {o!r}")
+        for i, m in enumerate(c["msgs"]):
+            code, reg, data = (m[1], m[2], m[3]) if m[0] == "send" else (0, m[1], m[2])
+            if not (0 <= code < 65536 and 0 <= reg < 256 and len(data) <= 5):
+                return None              # the property says nothing about such a call (nor about what follows it)
+            want = bytes([code & 255, code >> 8, reg] + data + [0] * (5 - len(data)))
+            if o[i] != want:
+                return ("producer_frame_wrong", f"message {i} of one producer {m!r} (after {c['msgs'][:i]!r}): sent {o[i]!r}, "
+                        f"expected one frame {want.hex()} on 0x{0x80 + NODE:X}")
+            e = [code, reg, bytes(data + [0] * (5 - len(data))), c["ts"] + i]
+            log.append(e)
+            active = [] if is_reset_frame(code) else active + [e]
+        want_state = [log, active, [[0, e] for e in log]]
+        if o[-1] != want_state:
+            return ("roundtrip_wrong", f"messages {c['msgs']!r}: consumer state {o[-1]!r}, expected {want_state!r}")
+        return None
     if k == "desc":
         if 0 <= c["code"] < 65536:
             want = S(cia301_class(c["code"]))
@@ -520,6 +574,10 @@ def coq_case(c):
     if k == "prod_reset": return f"CProdReset {gz(c['reg'])} {gzlist(c['data'])}"
     if k == "round": return f"CRound {gz(c['code'])} {gz(c['reg'])} {gzlist(c['data'])} {gz(c['ts'])}"
     if k == "desc": return f"CDesc {gz(c['code'])}"
+    if k == "prod_seq":
+        ms = [f"PSend {gz(m[1])} {gz(m[2])} {gzlist(m[3])}" if m[0] == "send" else f"PReset {gz(m[1])} {gzlist(m[2])}"
+              for m in c["msgs"]]
+        return f"CProdSeq [{'; '.join(ms)}] {gz(c['ts'])}"
     if k == "wait":
         ws = []
         for i, (b, g) in enumerate(zip(c["wakes"], case_gaps(c))):
@@ -714,6 +772,23 @@ def gen_cases(rng, tier):
     for _ in range(n_round):
         cases.append(dict(kind="round", code=rcode(rng), reg=rreg(rng), data=rdata(rng, rng.randrange(0, 6)),
                           ts=rts(rng, rng.randrange(10 ** 6))))
+    # several messages from ONE producer object (a producer that keeps state between messages would show): data lengths
+    # mostly decreasing, non-zero bytes, send and reset mixed
+    cases.append(dict(kind="prod_seq", ts=500, msgs=[["send", 0x2001, 2, [1, 2, 3, 4, 5]], ["reset", 0, []]]))
+    cases.append(dict(kind="prod_seq", ts=600, msgs=[["send", 0x8100, 1, [9, 8, 7, 6, 5]], ["send", 0x8100, 1, [1, 2]],
+                                                       ["reset", 3, [0xAA]], ["send", 0xFF00, 255, []]]))
+    for _ in range({"quick": 60, "thorough": 600, "search": 150}[tier]):
+        n = rng.choice((2, 2, 3, 3, 4, 6))
+        ln = rng.choice((5, 5, 4, 3))
+        msgs = []
+        for _ in range(n):
+            data = [rng.randrange(1, 256) for _ in range(ln)]
+            if rng.random() < 0.3:
+                msgs.append(["reset", rreg(rng), data])
+            else:
+                msgs.append(["send", rcode(rng), rreg(rng), data])
+            ln = rng.choice((max(0, ln - 1), max(0, ln - 2), 0, ln, rng.randrange(0, 6)))
+        cases.append(dict(kind="prod_seq", ts=rng.randrange(10 ** 6), msgs=msgs))
     # descriptions: single codes through model + oracle, all 65536 codes as run-length sweeps through the oracle
     for code in BOUNDARY_CODES if tier != "search" else ():
         cases.append(dict(kind="desc", code=code))
@@ -747,6 +822,22 @@ def gen_cases(rng, tier):
               dict(kind="wait", filt=0x2001, pre=[], wakes=[[e3000], [e2002], [e3000]], late_at=2)]
     for _ in range(max(4, n_wait // 4)):
         cases.append(gen_wait_deadline(rng))
+    # an error-RESET frame (class 00xx) is what the caller waits for (no filter, or a filter on a 00xx code), and nothing
+    # follows it: the caller must be woken by it
+    r0000 = [[0, 0, 0, 0, 0, 0, 0, 0], 103]
+    r00ff = [[255, 0, 7, 1, 0, 0, 0, 0], 104]
+    cases += [dict(kind="wait", filt=None, pre=[], wakes=[[r0000]]),
+              dict(kind="wait", filt=None, pre=[e2001], wakes=[[r00ff]]),
+              dict(kind="wait", filt=0, pre=[], wakes=[[e3000], [r0000]]),
+              dict(kind="wait", filt=0x00FF, pre=[r00ff], wakes=[[e2001, e3000], [r0000], [r00ff]])]
+    for _ in range(max(3, n_wait // 6)):
+        rc = rng.choice((0, 0, 0xFF, rng.randrange(0x100)))
+        filt = rng.choice((None, rc, rc))
+        ts0 = rng.randrange(1000)
+        before = [] if filt is None else [[[rframe(rng, rng.choice((0x2001, 0x8100, rc ^ 0x100, (rc + 1) & 0xFF))), ts0 + i]]
+                                           for i in range(rng.choice((0, 1, 2)))]
+        cases.append(dict(kind="wait", filt=filt, pre=[[rframe(rng), ts0 - 1]] if rng.random() < 0.4 else [],
+                          wakes=before + [[[rframe(rng, rc), ts0 + 10]]]))
     # a frame logged right after a look at the log that found no match (before 435c8a8 it was never examined)
     cases.append(dict(kind="wait", filt=0x2001, pre=[], wakes=[[e3000]], gaps=[[e2001]]))
     cases.append(dict(kind="wait", filt=0x2001, pre=[e2001], wakes=[[e3000, e2002], [e2002]], gaps=[[], [e2001, e3000]]))
@@ -790,6 +881,15 @@ def shrink(c):
             mid = (c["lo"] + c["hi"]) // 2
             yield dict(c, hi=mid)
             yield dict(c, lo=mid + 1)
+    elif k == "prod_seq":
+        ms = c["msgs"]
+        for i in range(len(ms)):
+            if len(ms) > 1:
+                yield dict(c, msgs=ms[:i] + ms[i + 1:])
+        for i, m in enumerate(ms):
+            d = m[-1]
+            if d and i > 0:
+                yield dict(c, msgs=ms[:i] + [m[:-1] + [d[:-1]]] + ms[i + 1:])
     elif k in ("prod", "round", "prod_reset"):
         d = c["data"]
         if d:
